@@ -225,7 +225,9 @@ class Ctx:
     def domain_api(cb):
         """Functions that rules use as anchors and that therefore stay calls under virtual inlining:
         the methods of the block model and the diagnostic constructors."""
-        if (cb.impl_self_adt or "").startswith("blockwatch::blocks::") or (cb.impl_self_adt or "") in ("blockwatch::validators::ValidationContext", "blockwatch::Position"):
+        if (cb.impl_self_adt or "") in ("blockwatch::blocks::Block", "blockwatch::blocks::BlockWithContext", "blockwatch::blocks::FileBlocks",
+                                        "blockwatch::blocks::FileSystemImpl", "blockwatch::blocks::PathCheckerImpl",
+                                        "blockwatch::validators::ValidationContext", "blockwatch::Position"):
             return True
         r = cb.local_ty(0)
         return "blockwatch::validators::Violation" in r
